@@ -78,6 +78,33 @@ def rule_tokens(nr):
     return t
 
 
+def raw_rule_tokens(rule):
+    """the rule as the objects are (raw Buffer fields: bytes, length, padding side, padding length) for the byte-level model"""
+    from core import raw
+    fds = rule.field_descriptors if rule.nature is RuleNature.COMPRESSION else []
+    t = ['R', raw(rule.id), 'C' if rule.nature is RuleNature.COMPRESSION else 'N', str(len(fds))]
+    for rf in fds:
+        fid = fid_of(rf.id)
+        t += [fid[0], str(fid[1]), str(rf.length), str(rf.position), DIRC[DI(rf.direction)], MOC[MO(rf.matching_operator)], CDAC[CDA(rf.compression_decompression_action)]]
+        if isinstance(rf.target_value, MatchMapping):
+            t += ['m', str(len(rf.target_value.forward))]
+            for k, v in rf.target_value.forward.items():
+                t += [raw(k), raw(v)]
+        else:
+            t += ['b', raw(rf.target_value)]
+    return t
+
+
+def raw_pdesc_tokens(pd):
+    from core import raw
+    t = ['P', DIRC[DI(pd.direction)], str(len(pd.fields))]
+    for f in pd.fields:
+        fid = fid_of(f.id)
+        t += [fid[0], str(fid[1]), str(f.position), raw(f.value)]
+    t.append(raw(pd.payload))
+    return t
+
+
 def rules_tokens(nrs):
     t = [str(len(nrs))]
     for r in nrs:
